@@ -49,6 +49,7 @@ def make_spec(rng):
         spec["kwargs"]["time_period_output_format"] = rng.choice(["vtl", "natural", "martian"])
     if rng.random() < 0.15:
         spec["script"] = rng.choice([spec["script"] + "X_1 <- DS_1 +;\n", "X_1 <- DS_404 + 1;\n" + spec["script"], spec["script"] + "X_2 <- DS_1 / 0;\n"])
+    sh["none_datapoint"] = (not sdmxish) and len(w["data"]) > 1 and rng.random() < 0.12
     if api == "run_url":
         sh["peer"] = {n: rng.choice(["ok", "ok", "ok", "empty", "http_error", "wrong_type"]) for n in w["data"]}
         sh["url_part"] = rng.choice(["all", "some"])
@@ -142,6 +143,8 @@ def build_call(spec, sb, n):
     for name, v in list(kw.get("datapoints", {}).items()):
         if isinstance(v, pd.DataFrame) and sh["dirty"]:
             kw["datapoints"][name] = _dirty(v, sh["dirty"], comps.get(name), rng)
+    if sh.get("none_datapoint") and kw.get("datapoints"):
+        kw["datapoints"][sorted(kw["datapoints"])[-1]] = None      # structure only, no data for this dataset
     if "scalar_values" in kw:
         kw["data_structures"] = dict(kw["data_structures"], scalars=[{"name": "sc_x", "type": "Integer"}, {"name": "sc_y", "type": "Number"}])
     kw["data_structures"] = _dialect(kw["data_structures"], sh.get("structure_dialect") or [])
